@@ -12,10 +12,31 @@ use crate::tzdb::FsTzdbProvider;
 #[cfg(not(feature = "verif_loom"))]
 use std::sync::{LazyLock, Mutex};
 
+/// The lock around the process-wide provider.
+///
+/// `lock` never fails: a panic while the lock was held (which poisons a `Mutex`) must not disable
+/// every later call for the rest of the process, the provider only holds a cache of parsed data.
 #[cfg(feature = "compiled_data")]
 #[cfg(not(feature = "verif_loom"))]
-pub static TZ_PROVIDER: LazyLock<Mutex<FsTzdbProvider>> =
-    LazyLock::new(|| Mutex::new(FsTzdbProvider::default()));
+pub struct ProviderMutex(Mutex<FsTzdbProvider>);
+
+#[cfg(feature = "compiled_data")]
+#[cfg(not(feature = "verif_loom"))]
+impl ProviderMutex {
+    pub fn lock(
+        &self,
+    ) -> Result<std::sync::MutexGuard<'_, FsTzdbProvider>, ::core::convert::Infallible> {
+        Ok(self
+            .0
+            .lock()
+            .unwrap_or_else(std::sync::PoisonError::into_inner))
+    }
+}
+
+#[cfg(feature = "compiled_data")]
+#[cfg(not(feature = "verif_loom"))]
+pub static TZ_PROVIDER: LazyLock<ProviderMutex> =
+    LazyLock::new(|| ProviderMutex(Mutex::new(FsTzdbProvider::default())));
 
 // Verification hooks (off by default; see the `verif_hooks` / `verif_loom` features).
 #[cfg(feature = "verif_loom")]
